@@ -645,13 +645,19 @@ def m_read(c):
     if loc is not None:
         havoc(loc)
     c.I.emit("read", call=c, buf_len=ln, buf_len_lin=l)
+    def outcome_tag(st_, k):
+        # analyses that count received bytes keep the three outcomes of a read apart (the counter is ahead of `filled` until the caller adds n)
+        if c.I.opt.get("ghost_received") is not None:
+            st_.tag = tuple(x for x in st_.tag if x[0] != "rd") + (("rd", k),)
     # Err
     s_err = c.fork()
+    outcome_tag(s_err, 2)
     if c.I.opt.get("rderr_partition") and not any(x[0] == "rderr" for x in s_err.tag):
         s_err.tag = s_err.tag + (("rderr", 1),)      # the source failed: kept apart so that what is reported for it can be checked
     c.ret(res_err(Top()), st=s_err)
     # Ok(0): end of stream
     s0 = c.fork()
+    outcome_tag(s0, 0)
     s0.ghost["eof_seen"] = 1
     if c.I.opt.get("eof_partition") and not any(x[0] == "eof" for x in s0.tag):
         s0.tag = s0.tag + (("eof", 1),)      # end of stream observed: kept apart from states where it was not
@@ -659,6 +665,7 @@ def m_read(c):
     # Ok(n), 1 <= n <= len
     if ln.hi >= 1:
         s1 = c.st
+        outcome_tag(s1, 1)
         try:
             if l is not None and not l.is_const():
                 s1.add_le(LinForm.constant(1) - l)
